@@ -398,8 +398,9 @@ pub fn check_mo(l: &Lexed, v: &View) -> Vec<Finding> {
                     Kind::Punct(')') | Kind::Punct(']') | Kind::Punct('}') => depth -= 1,
                     Kind::Punct(';') if depth == 0 => break,
                     Kind::Ident if depth == 0 && toks[j].text == "actor" && is_p(toks.get(j + 1).copied(), '{') => {
+                        // the last top-level actor block of the definition: an init argument that is itself a
+                        // service type (`actor { .. } -> async actor { .. }`) comes first
                         block = Some(j + 1);
-                        break;
                     }
                     _ => {}
                 }
